@@ -27,41 +27,295 @@ impl Unit {
 }
 
 pub const ABC: [Tok; 3] = ['a', 'b', 'c'];
+pub const ABCOMMA: [Tok; 3] = ['a', 'b', ','];
+pub const BRACKETS: [Tok; 5] = ['a', '(', ')', '[', ']'];
 const SPAN: Probes = Probes { span: true, state: false, ctx: false };
+const STATE: Probes = Probes { span: true, state: true, ctx: false };
+const CTX: Probes = Probes { span: false, state: false, ctx: true };
 const NOPROBE: Probes = Probes { span: false, state: false, ctx: false };
 
-#[allow(clippy::too_many_arguments)]
-fn e1(name: &str, class: &en::Class, n: usize, len: usize, kind: KindId, cfg: CfgId, probes: Probes, alarm: u32) -> Unit {
-    Unit::E1(E1Unit {
-        name: name.to_string(),
-        grammars: class.upto(n),
-        class_desc: format!("class {} with <= {} nodes", class.name, n),
-        alphabet: ABC.to_vec(),
-        max_len: len,
-        kind,
-        cfg,
-        probes,
-        alarm,
-        skip_not_content: true,
-    })
+/// builder for E1 units
+struct B {
+    u: E1Unit,
+}
+fn e1(name: &str, desc: String, grammars: Vec<G>) -> B {
+    B {
+        u: E1Unit {
+            name: name.to_string(),
+            grammars,
+            class_desc: desc,
+            alphabet: ABC.to_vec(),
+            max_len: 4,
+            kind: KindId::Str,
+            cfg: CfgId::Rich,
+            probes: SPAN,
+            alarm: 0,
+            skip_not_content: true,
+            lazy: false,
+            pair_mode: None,
+        },
+    }
+}
+fn class(name: &str, c: &en::Class, n: usize) -> B {
+    e1(name, format!("class {} with <= {} nodes", c.name, n), c.upto(n))
+}
+impl B {
+    fn alpha(mut self, a: &[Tok], len: usize) -> Self {
+        self.u.alphabet = a.to_vec();
+        self.u.max_len = len;
+        self
+    }
+    fn len(mut self, len: usize) -> Self {
+        self.u.max_len = len;
+        self
+    }
+    fn kind(mut self, k: KindId) -> Self {
+        self.u.kind = k;
+        self
+    }
+    fn cfg(mut self, c: CfgId) -> Self {
+        self.u.cfg = c;
+        self
+    }
+    fn probes(mut self, p: Probes) -> Self {
+        self.u.probes = p;
+        self
+    }
+    fn alarm(mut self, a: u32) -> Self {
+        self.u.alarm = a;
+        self
+    }
+    fn lazy(mut self) -> Self {
+        self.u.lazy = true;
+        self
+    }
+    fn pairs(mut self, m: PairMode) -> Self {
+        self.u.pair_mode = Some(m);
+        self.u.alarm |= DIF;
+        self
+    }
+    fn unit(self) -> Unit {
+        Unit::E1(self.u)
+    }
 }
 
-pub const ALL_PROPS: &[&str] = &["C01"];
+pub const ALL_PROPS: &[&str] = &["C01", "C02", "C03", "C04", "C05", "C06", "C07", "C08", "C10", "C15", "C17", "C18", "C20"];
+
+/// class for the output-elision differential (C04): extended class plus the eliding forms
+fn k04() -> en::Class {
+    let mut c = en::k_ext();
+    c.name = "K04";
+    c.unary.extend(en::unary_slices());
+    c.unary.push(Box::new(|a| if en::nn(&a) { Some(Rep(a, Bounds::STAR, Sink::Bare)) } else { None }));
+    c.unary.push(Box::new(|a| if en::nn(&a) { Some(Rep(a, Bounds::new(1, Some(2)), Sink::Bare)) } else { None }));
+    c.binary.push(Box::new(|a, p| Some(PaddedBy(a, p))));
+    c.binary.push(Box::new(|a, s| if en::nn(&a) && en::nn(&s) { Some(SepBy(a, s, Bounds::new(0, None), false, true, Sink::Bare)) } else { None }));
+    c.ternary.push(Box::new(|a, o, c| Some(DelimitedBy(a, o, c))));
+    c
+}
+
+fn wrap_label(g: G) -> G {
+    Labelled(b(g), false)
+}
+fn wrap_label_ctx(g: G) -> G {
+    Labelled(b(g), true)
+}
+fn wrap_map_err(g: G) -> G {
+    MapErr(b(g))
+}
+fn wrap_memo(g: G) -> G {
+    Memo(b(g))
+}
 
 pub fn units(prop: &str, tier: Tier) -> Option<Vec<Unit>> {
     let q = tier == Tier::Quick;
+    let pick = |a: usize, b: usize| if q { a } else { b };
     Some(match prop {
         "C01" => {
             // acceptance, output value, per-node extents == PEG reading
             let alarm = ACC | VAL | EXT;
             let k = en::k01();
             let mut v = vec![
-                e1("k01-str", &k, if q { 4 } else { 5 }, if q { 4 } else { 5 }, KindId::Str, CfgId::Rich, SPAN, alarm),
-                e1("k01-str-multibyte", &k, if q { 3 } else { 4 }, 4, KindId::StrMb, CfgId::Rich, SPAN, alarm),
-                e1("k01-slice", &k, if q { 3 } else { 4 }, 4, KindId::Slice, CfgId::Rich, SPAN, alarm),
+                class("k01-str", &k, pick(4, 5)).len(pick(4, 5)).alarm(alarm).unit(),
+                class("k01-str-multibyte", &k, pick(3, 4)).kind(KindId::StrMb).alarm(alarm).unit(),
+                class("k01-slice", &k, pick(3, 4)).kind(KindId::Slice).alarm(alarm).unit(),
             ];
             if !q {
-                v.push(e1("kcore-deep", &en::k_core(), 6, 4, KindId::Str, CfgId::Rich, SPAN, alarm));
+                v.push(class("kcore-deep", &en::k_core(), 6).alarm(alarm).unit());
+            }
+            v
+        }
+        "C02" => {
+            let alarm = ACC | VAL | EXT;
+            vec![
+                e1("k02-repeated", "repeated() templates: items x bounds(0..4, exactly, configure) x sinks, each followed by a rest capture".into(), en::k02_rep(!q))
+                    .alpha(&ABCOMMA, pick(5, 6))
+                    .alarm(alarm)
+                    .unit(),
+                e1("k02-separated", "separated_by() templates: items x separators x bounds(0..4, exactly) x leading/trailing x sinks, each followed by a rest capture".into(), en::k02_sep(!q))
+                    .alpha(&ABCOMMA, pick(5, 6))
+                    .alarm(alarm)
+                    .unit(),
+                e1("k02-separated-multibyte", "separated_by() templates on multi-byte text".into(), en::k02_sep(false)).alpha(&ABC, 4).kind(KindId::StrMb).alarm(alarm).unit(),
+            ]
+        }
+        "C03" => {
+            // whole-input contract, output/error consistency, lazy prefix
+            let alarm = ACC | CON | NOE | LAZ;
+            vec![
+                class("k01-contract", &en::k01(), pick(3, 4)).len(pick(4, 5)).alarm(alarm).lazy().unit(),
+                class("kext-contract", &en::k_ext(), pick(3, 4)).len(pick(4, 5)).alarm(alarm).lazy().unit(),
+                e1("k02-contract", "repeated()/separated_by() templates".into(), {
+                    let mut v = en::k02_rep(false);
+                    v.extend(en::k02_sep(false));
+                    v
+                })
+                .alpha(&ABCOMMA, pick(4, 5))
+                .alarm(alarm)
+                .lazy()
+                .unit(),
+            ]
+        }
+        "C04" => {
+            let k = k04();
+            let gs: Vec<G> = k.upto(pick(3, 4));
+            let mut pairs = vec![];
+            for g in &gs {
+                if en::has_elision(g) {
+                    pairs.push(g.clone());
+                    pairs.push(en::explicit(g));
+                }
+            }
+            vec![
+                class("k04-check-vs-parse", &k, pick(3, 4)).probes(NOPROBE).alarm(CHK).unit(),
+                class("k01-check-vs-parse", &en::k01(), pick(3, 4)).probes(NOPROBE).alarm(CHK).unit(),
+                class("kstate-check-vs-parse", &en::k_state(), pick(3, 3)).cfg(CfgId::RichSt).probes(NOPROBE).alarm(CHK).unit(),
+                class("kctx-check-vs-parse", &en::k_ctx(), pick(3, 4)).cfg(CfgId::RichCx).probes(NOPROBE).alarm(CHK).unit(),
+                e1("k02-check-vs-parse", "repeated()/separated_by() templates".into(), {
+                    let mut v = en::k02_rep(false);
+                    v.extend(en::k02_sep(false));
+                    v
+                })
+                .alpha(&ABCOMMA, 4)
+                .probes(NOPROBE)
+                .alarm(CHK)
+                .unit(),
+                e1("k04-elision-pairs", format!("every K04 grammar with <= {} nodes containing an output-eliding combinator vs its value-building formulation", pick(3, 4)), pairs)
+                    .probes(NOPROBE)
+                    .pairs(PairMode::Exact)
+                    .unit(),
+            ]
+        }
+        "C05" => {
+            let alarm = EMI | FIN | STO;
+            vec![
+                class("kext-emissions-state", &en::k_ext(), pick(4, 4)).len(pick(4, 5)).cfg(CfgId::RichSt).probes(STATE).alarm(alarm).unit(),
+                class("kstate-emissions-state", &en::k_state(), pick(3, 4)).cfg(CfgId::RichSt).probes(STATE).alarm(alarm).unit(),
+            ]
+        }
+        "C06" => {
+            let alarm = PSP | PFO | PEX | MAL | ECN | NOE;
+            let k = en::k_ext();
+            let mut v = vec![];
+            for (n, c) in [("rich", CfgId::Rich), ("simple", CfgId::Simple), ("cheap", CfgId::Cheap), ("empty", CfgId::Empty)] {
+                v.push(class(&format!("kext-{n}"), &k, pick(3, 4)).cfg(c).probes(NOPROBE).alarm(alarm).unit());
+            }
+            v.push(class("kcore-rich", &en::k_core(), pick(4, 5)).alarm(alarm).unit());
+            v.push(class("k01-rich", &en::k01(), pick(3, 4)).alarm(alarm).unit());
+            v.push(
+                e1("k02-rich", "repeated()/separated_by() templates".into(), {
+                    let mut v = en::k02_rep(false);
+                    v.extend(en::k02_sep(false));
+                    v
+                })
+                .alpha(&ABCOMMA, 4)
+                .alarm(alarm)
+                .unit(),
+            );
+            v
+        }
+        "C07" => {
+            let alarm = EXT | MAL | ZCP;
+            vec![
+                class("k07-str", &en::k07(true), pick(3, 4)).alarm(alarm).unit(),
+                class("k07-str-multibyte", &en::k07(true), pick(3, 4)).kind(KindId::StrMb).alarm(alarm).unit(),
+                class("k07-slice", &en::k07(true), pick(3, 3)).kind(KindId::Slice).alarm(alarm).unit(),
+                class("k07-stream", &en::k07(false), pick(3, 3)).kind(KindId::Stream).alarm(alarm).unit(),
+                class("k07-mapped-gapped", &en::k07(false), pick(3, 4)).kind(KindId::MappedGapped).alarm(alarm).unit(),
+                e1("k02-spans", "repeated()/separated_by() templates (fold callbacks with spans, rest slices)".into(), {
+                    let mut v = en::k02_rep(false);
+                    v.extend(en::k02_sep(false));
+                    v
+                })
+                .alpha(&ABCOMMA, 4)
+                .kind(KindId::StrMb)
+                .alarm(alarm)
+                .unit(),
+            ]
+        }
+        "C08" => {
+            let alarm = ACC | VAL | EXT | EMI | EMC | PSP | PFO | PEX;
+            vec![
+                class("kext-recovery", &en::k_ext(), pick(4, 4)).len(pick(4, 5)).alarm(alarm).unit(),
+                class("knd-nested-delimiters", &en::k_nd(), pick(3, 4)).alpha(&BRACKETS, pick(4, 5)).alarm(alarm).unit(),
+            ]
+        }
+        "C10" => {
+            let alarm = ACC | VAL | EXT | EMI | PSP | MAL;
+            let k = en::k01();
+            let ke = en::k_ext();
+            let mut v = vec![];
+            for kind in [
+                KindId::Str,
+                KindId::StrMb,
+                KindId::Slice,
+                KindId::Stream,
+                KindId::BoxedStream,
+                KindId::Mapped,
+                KindId::MappedGapped,
+                KindId::U8,
+                KindId::Io,
+                KindId::WithContext,
+                KindId::WithContextMb,
+                KindId::MapSpan,
+            ] {
+                v.push(class(&format!("k01-{}", kind.name()), &k, pick(3, 3)).kind(kind).alarm(alarm).unit());
+                v.push(class(&format!("kext-{}", kind.name()), &ke, pick(2, 3)).kind(kind).alarm(alarm).unit());
+            }
+            v
+        }
+        "C15" => {
+            let alarm = ACC | VAL | CXO;
+            vec![class("kctx", &en::k_ctx(), pick(4, 4)).len(pick(4, 5)).cfg(CfgId::RichCx).probes(CTX).alarm(alarm).unit()]
+        }
+        "C17" => {
+            let gs = en::k_core().upto(pick(3, 3));
+            let wl: &dyn Fn(G) -> G = &wrap_label;
+            let wc: &dyn Fn(G) -> G = &wrap_label_ctx;
+            let wm: &dyn Fn(G) -> G = &wrap_map_err;
+            let pairs = en::decorated_pairs(&gs, &[wl, wc, wm]);
+            vec![
+                e1("kcore-decorated-pairs", "every Kcore grammar with <= 3 nodes x every non-empty subset of nodes wrapped in labelled / labelled.as_context / map_err, vs the undecorated grammar".into(), pairs)
+                    .probes(NOPROBE)
+                    .pairs(PairMode::Shape)
+                    .unit(),
+                class("kext-label-content", &en::k_ext(), pick(3, 4)).alarm(ACC | VAL | PSP | PEX | PCX | EMC | EMI).unit(),
+            ]
+        }
+        "C18" => {
+            let alarm = STO | FIN;
+            vec![
+                class("kstate-str", &en::k_state(), pick(3, 4)).cfg(CfgId::RichSt).probes(STATE).alarm(alarm).unit(),
+                class("kstate-slice", &en::k_state(), pick(3, 3)).kind(KindId::Slice).cfg(CfgId::RichSt).probes(STATE).alarm(alarm).unit(),
+                class("kstate-stream", &en::k_state(), pick(3, 3)).kind(KindId::Stream).cfg(CfgId::RichSt).probes(STATE).alarm(alarm).unit(),
+            ]
+        }
+        "C20" => {
+            let alarm = PAN | NOE | CON;
+            let mut v = vec![];
+            for (n, c) in [("rich", CfgId::Rich), ("simple", CfgId::Simple), ("cheap", CfgId::Cheap), ("empty", CfgId::Empty)] {
+                v.push(class(&format!("kext-{n}"), &en::k_ext(), pick(3, 4)).cfg(c).probes(NOPROBE).alarm(alarm).unit());
+                v.push(class(&format!("k01-{n}"), &en::k01(), pick(3, 3)).cfg(c).probes(NOPROBE).alarm(alarm).unit());
             }
             v
         }
@@ -71,5 +325,5 @@ pub fn units(prop: &str, tier: Tier) -> Option<Vec<Unit>> {
 
 #[allow(dead_code)]
 fn _unused() {
-    let _ = NOPROBE;
+    let _ = wrap_memo;
 }
